@@ -65,6 +65,9 @@ func suiteTransport(t *testing.T, cfg cfgT) {
 		ee := newEngineEnv(t, nss, false, hr.chance(1, 3), 30, 100)
 		ee.header(out)
 		ee.insert(t, egTuples(hr, nss, 6+hr.intn(20), hr.chance(1, 2)))
+		// entries of one batch that walk the SAME subject sets (per-entry state must not be shared)
+		motifT, motifQ := egMotif(hr, nss)
+		ee.insert(t, motifT)
 		ee.table(out)
 		mkq := func() *ketoapi.RelationTuple {
 			q := egQuery(hr, nss)
@@ -134,7 +137,13 @@ func suiteTransport(t *testing.T, cfg cfgT) {
 			n := []int{0, 1, 2, 5, 9, 10}[hr.intn(6)]
 			depth := []int{0, 0, 4}[hr.intn(3)]
 			var qs []*ketoapi.RelationTuple
-			for i := 0; i < n; i++ {
+			if bi == 0 && len(motifQ) > 0 {
+				n = 6 + hr.intn(4)
+				for i := 0; i < n; i++ {
+					qs = append(qs, motifQ[hr.intn(len(motifQ))])
+				}
+			}
+			for i := len(qs); i < n; i++ {
 				if i > 0 && hr.chance(1, 5) {
 					qs = append(qs, qs[hr.intn(len(qs))])
 				} else {
